@@ -497,8 +497,12 @@ def finish(prop, tier, seed, t0, uni, reports, by_name, extras, result, mod,
     level = getattr(mod, "LEVEL", "proof")
     # obligations matched by a recorded known finding are reported under
     # known_findings_printed, not counted as (undischarged) obligations
-    ex_count = sum(e.count for e in extras if not getattr(e, "known", False))
-    ex_ok = sum(e.count for e in extras if e.ok)
+    # bounded run-time contracts are reported separately (bounded_cases):
+    # they are never part of the obligations / discharged counts
+    ex_count = sum(e.count for e in extras
+                   if not getattr(e, "known", False) and not e.bounded)
+    ex_ok = sum(e.count for e in extras if e.ok and not e.bounded)
+    bounded_cases = sum(e.count for e in extras if e.bounded and e.ok)
     bounded = [e.name for e in extras if e.bounded] + \
         [r.contract.name for r in reports if r.bounded]
     samples = []
@@ -534,8 +538,9 @@ def finish(prop, tier, seed, t0, uni, reports, by_name, extras, result, mod,
                           "cases": e.count, "bounded": e.bounded,
                           "detail": e.detail[:300]} for e in extras],
         "bounded_parts": bounded,
+        "bounded_cases_not_counted_as_obligations": bounded_cases,
         "samples": samples or [{"note": note or "none"}],
-        "evaluations": max(1, n_inst + ex_count),
+        "evaluations": max(1, n_inst + ex_count + bounded_cases),
         "distinct_nontrivial": max(2, len(by_name) + len(extras)),
         "rule": "one case per named obligation (function#kind:label) "
                 "or extra check; instances are per symbolic path",
